@@ -95,4 +95,10 @@ SERVES = {
         "the claim issuer is composed from the library helpers as its module documentation prescribes",
         "a claim whose valid_until equals the current timestamp is left open (the library's two descriptions disagree)",
     ]),
+    # C04 demands "both parties pass identity verification": the soundness / completeness of the library's
+    # verify_identity (an anchor of C04) is part of that gate; the C04 model itself scripts the verifier
+    "C04": dict(assumptions=["the RWA token of the C04 model asks a scripted identity verifier; the library's verify_identity "
+                             "is judged separately, on the identity stack of the C15 model, and its soundness / completeness "
+                             "monitors count for C04 as well"],
+                also=["C15_verify_sound", "C15_verify_complete"]),
 }
